@@ -45,7 +45,7 @@ type mcode struct {
 }
 
 func runSequential(t vkit.TB, c Case) {
-	w := newWorldWith(2, &services.ConnectionCodeServiceConfig{MaxActiveCodesPerClient: 10, MaxActiveMappingsPerClient: c.MaxMap}, false, nil, c.Cluster)
+	w := newWorldWith(2, &services.ConnectionCodeServiceConfig{MaxActiveCodesPerClient: 10, MaxActiveMappingsPerClient: c.MaxMap}, false, nil, c.Cluster, c.Persistent)
 	defer w.close()
 	var codes []*mcode
 	good := map[string]int64{} // mapping id -> listen client, for every successful activation
@@ -106,6 +106,9 @@ func runSequential(t vkit.TB, c Case) {
 				continue
 			}
 			ttl := time.Hour
+			if c.CodeTTL > 0 {
+				ttl = time.Duration(c.CodeTTL) * time.Second
+			}
 			if s.Short {
 				ttl = shortTTL
 			}
@@ -262,8 +265,10 @@ func TestSequentialHistories(t *testing.T) {
 	})
 	vkit.Check(t, 480, 12000, func(t *rapid.T) {
 		c := Case{Mode: "sequential", FailAt: -1, QuotaFull: -1,
-			MaxMap:  rapid.SampledFrom([]int{1, 2, 50}).Draw(t, "maxMappings"),
-			Cluster: rapid.Bool().Draw(t, "cluster"),
+			MaxMap:     rapid.SampledFrom([]int{1, 2, 50}).Draw(t, "maxMappings"),
+			Cluster:    rapid.Bool().Draw(t, "cluster"),
+			Persistent: rapid.IntRange(0, 2).Draw(t, "persistent") == 0,
+			CodeTTL:    rapid.SampledFrom(codeTTLs).Draw(t, "longCodeTTLSeconds"),
 		}
 		first := Step{Kind: "create", Target: rapid.IntRange(0, 1).Draw(t, "t0"), Short: rapid.Bool().Draw(t, "short0"), FailAt: -1}
 		c.Steps = append([]Step{first}, rapid.SliceOfN(stepGen, 1, 12).Draw(t, "steps")...)
@@ -274,5 +279,6 @@ func TestSequentialHistories(t *testing.T) {
 // rollbackFault: the injected failure hit a write that only the rollback of an already failed
 // activation performs (removing index entries / the mapping record / the id marker).
 func rollbackFault(cause string) bool {
-	return strings.HasPrefix(cause, "fault@RemoveFromList:") || strings.HasPrefix(cause, "fault@Delete:")
+	return strings.HasPrefix(cause, "fault@RemoveFromList:") || strings.HasPrefix(cause, "fault@Delete:") ||
+		(strings.HasPrefix(cause, "fault@tier:") && strings.Contains(cause, ".Delete:"))
 }
